@@ -65,6 +65,16 @@ func newStringExtractor(position stringExtractorPosition, patternParts []string,
 			return emptyExtractor, fmt.Errorf("patternParts[1]: %w", err)
 		}
 	}
+	// a bare "*" matches any byte: the label can only be delimited by the boundary on its far side
+	// (extractLabelAtStart and extractLabelAtEnd would otherwise index the nil table)
+	if validCharTable == nil {
+		switch {
+		case position == extractFromStart && len(rightBoundary) == 0:
+			return emptyExtractor, fmt.Errorf("'*' must be followed by a right boundary when extracting from the start")
+		case position == extractFromEnd && len(leftBoundary) == 0:
+			return emptyExtractor, fmt.Errorf("'*' must be preceded by a left boundary when extracting from the end")
+		}
+	}
 	return stringExtractor{
 		position:   position,
 		leftBound:  leftBoundary,
